@@ -82,12 +82,15 @@ def handle (j : Json) : IO Unit := do
       | "dec" => (l.map (fun e => if e.id == o.2 then { e with conns := recordConn e.conns (-1) } else e), out)
       | _ => (l, out ++ [((match lcSelect l with | some e => (e.id : Int) | none => -1), l.map (fun e => (e.id, e.conns)))])
     let (_, want) := ops.foldl step (eps, [])
-    let got : List (Int × List (Nat × Int)) := obs.map (fun o =>
-      (jint (jget o "sel"), (jarr (jget o "conns")).map (fun r => (jnat ((jarr r).getD 0 Json.null), jint ((jarr r).getD 1 Json.null)))))
-    -- spec on impl: the selection is minimal w.r.t. the gauges the implementation itself reported at that moment
-    let spec := got.all (fun (s, cs) =>
-      let l := eps.map (fun e => { e with conns := (cs.find? (fun r => r.1 == e.id)).map (·.2) |>.getD 0 })
-      cs.all (fun r => r.2 ≥ 0) &&
+    let pairs := fun (j : Json) => (jarr j).map (fun r => (jnat ((jarr r).getD 0 Json.null), jint ((jarr r).getD 1 Json.null)))
+    let got : List (Int × List (Nat × Int)) := obs.map (fun o => (jint (jget o "sel"), pairs (jget o "conns")))
+    -- spec on impl: the selection is minimal w.r.t. the requests really in flight (what the harness itself started and
+    -- finished), and the gauge the collector reports for an endpoint is that number
+    let spec := obs.all (fun o =>
+      let s := jint (jget o "sel")
+      let truth := pairs (jget o "truth")
+      let l := eps.map (fun e => { e with conns := (truth.find? (fun r => r.1 == e.id)).map (·.2) |>.getD 0 })
+      truth.all (fun r => r.2 ≥ 0) &&
       (if s < 0 then s == -1 && (routable l).isEmpty else match findEp l s with | some e => isMinimal l e | none => false))
     let branch := if (routable eps).isEmpty then "lc.none" else if ops.any (fun o => o.1 == "dec") then "lc.ops.dec" else
       (if ops.length > 1 then "lc.ops" else "lc.single")
